@@ -10,6 +10,8 @@ import (
 	"os"
 	"path/filepath"
 	"regexp"
+	"sort"
+	"strconv"
 	"strings"
 
 	"github.com/a-h/templ/cmd/templ/fmtcmd"
@@ -217,6 +219,19 @@ var fmtFileSeeds = []string{
 	"package x\n\n// doc\ntempl A() {\n\t<p>x</p>\n}\n\nfunc f() int {\n\treturn 1 // t\n}\n   // c2\ntempl B() {\n\t<i>y</i>\n}\n",
 }
 
+// fmtImportSeeds: whole files whose import section the command has to tidy (unused, missing, named, grouped imports).
+var fmtImportSeeds = []string{
+	"package main\n\nimport (\n\t\"os\"\n\t\"strings\"\n\t\"time\"\n)\n\ntempl x() {\n\t<p>a</p>\n}\n",
+	"package main\n\nimport (\n\t\"fmt\"\n\t\"os\"\n\t\"strings\"\n\t\"time\"\n)\n\ntempl x(n int) {\n\t<p>{ fmt.Sprint(n) }</p>\n}\n",
+	"package main\n\nimport \"os\"\nimport \"strings\"\nimport \"time\"\nimport \"sort\"\n\ntempl x() {\n\t<p>a</p>\n}\n",
+	"package main\n\nimport (\n\t\"os\"\n\n\t\"strings\"\n\t\"time\"\n\n\t\"sort\"\n\t\"bytes\"\n)\n\ntempl x(s string) {\n\t<p>{ strings.ToUpper(s) }</p>\n}\n",
+	"package main\n\ntempl x(n int) {\n\t<p>{ fmt.Sprint(n) }{ strings.Repeat(\"a\", n) }</p>\n}\n",
+	"package main\n\nimport t \"github.com/a-h/templ\"\n\ntempl x(s string) {\n\t<a href={ t.URL(s) }>l</a>\n}\n",
+	"package main\n\nimport (\n\tt \"github.com/a-h/templ\"\n\trt \"github.com/a-h/templ/runtime\"\n\t\"os\"\n)\n\ntempl x(s string) {\n\t<a href={ t.URL(s) }>{ rt.GetDevModeTextFileName(s) }</a>\n}\n",
+	"package main\n\nimport \"github.com/a-h/templ\"\n\ntempl x(s string) {\n\t<a href={ templ.URL(s) }>l</a>\n}\n",
+	"package main\n\nimport (\n\tstr \"strings\"\n\t\"os\"\n\t\"io\"\n)\n\ntempl x(s string) {\n\t<p>{ str.ToUpper(s) }</p>\n}\n",
+}
+
 var fmtSeeds = []string{
 	// white space that is not a line feed (form feed, vertical tab, a lone carriage return) after an inline node of a one-line element
 	"<p><b>Name:</b>\f<i>{ s }</i></p>",
@@ -366,6 +381,63 @@ func runFmt(e *emitter, tier string, seed uint64, prop string) {
 		do(f, "seed")
 		do(strings.ReplaceAll(f, "\n", "\r\n"), "seed")
 	}
+	// `templ fmt <file>` tidies the imports: every import the template's code USES is still there afterwards, under
+	// the same name (the formatted file denotes the same program)
+	if prop == "C08" {
+		for i, f := range fmtImportSeeds {
+			key := fmt.Sprintf("fmtimports %d", i)
+			if !e.mine(key) {
+				continue
+			}
+			g0, err := genNormalised(f)
+			if err != nil {
+				e.count("rejected:import-seed")
+				continue
+			}
+			first, ok1 := fmtInPlace(f)
+			if !ok1 {
+				e.count("inplace-command-error")
+				continue
+			}
+			g1, err := genNormalised(first)
+			if err != nil {
+				e.emit(key, "fmtimports", hx(f), hx(first), hx("formatted file is no longer accepted: "+err.Error()))
+				continue
+			}
+			missing := []string{}
+			have := declaredImports(g1)
+			for name, path := range usedImports(g0) {
+				if have[name] != path {
+					missing = append(missing, name+"="+path)
+				}
+			}
+			sort.Strings(missing)
+			e.emit(key, "fmtimports", hx(f), hx(first), hx(strings.Join(missing, ",")))
+		}
+	}
+	// `templ fmt <file>` (which also tidies the imports) run twice on the same file: the second run changes nothing
+	if prop == "C09" {
+		for i, f := range append(append([]string{}, fmtImportSeeds...), fmtFileSeeds...) {
+			key := fmt.Sprintf("inplace2 %d", i)
+			if !e.mine(key) {
+				continue
+			}
+			if _, err := genNormalised(f); err != nil {
+				e.count("rejected:import-seed")
+				continue
+			}
+			first, ok1 := fmtInPlace(f)
+			if !ok1 {
+				e.count("inplace-command-error")
+				continue
+			}
+			second, ok2 := fmtInPlace(first)
+			if !ok2 {
+				second = "COMMAND-ERROR: templ fmt <file> failed on its own output"
+			}
+			e.emit(key, "inplace2", hx(f), hx(first), hx(second))
+		}
+	}
 	r := &rng{s: seed}
 	n := 2500
 	if tier == "thorough" {
@@ -448,4 +520,44 @@ func fmtInPlace(src string) (string, bool) {
 		return "", false
 	}
 	return string(b), true
+}
+
+// declaredImports: local name -> path of every import of a Go file (the last path element when no name is given).
+func declaredImports(code string) map[string]string {
+	out := map[string]string{}
+	f, err := goparser.ParseFile(token.NewFileSet(), "x.go", code, goparser.ImportsOnly)
+	if err != nil {
+		return out
+	}
+	for _, imp := range f.Imports {
+		p, _ := strconv.Unquote(imp.Path.Value)
+		name := p[strings.LastIndex(p, "/")+1:]
+		if imp.Name != nil {
+			name = imp.Name.Name
+		}
+		out[name] = p
+	}
+	return out
+}
+
+// usedImports: the imports of a Go file whose local name occurs as the qualifier of a selector (`name.X`) that refers to
+// no declaration of the file.
+func usedImports(code string) map[string]string {
+	out := map[string]string{}
+	f, err := goparser.ParseFile(token.NewFileSet(), "x.go", code, 0)
+	if err != nil {
+		return out
+	}
+	decl := declaredImports(code)
+	ast.Inspect(f, func(n ast.Node) bool {
+		if sel, ok := n.(*ast.SelectorExpr); ok {
+			if id, ok := sel.X.(*ast.Ident); ok && id.Obj == nil {
+				if p, ok := decl[id.Name]; ok {
+					out[id.Name] = p
+				}
+			}
+		}
+		return true
+	})
+	return out
 }
